@@ -901,6 +901,28 @@ def _(repo):
     return f"Definition gen_terms_use_their_own_mask : bool := {'true' if ok else 'false'}."
 
 
+@anchor("G_derivkeys", "from_str_fields")
+def _(repo):
+    """from_str: every field f of the returned object is `_get_masked_parameters(f, params) if isinstance(f, str) else f`"""
+    mod = parse(repo, "jinns/parameters/_derivative_keys.py")
+    ok = True
+    want = {"DerivativeKeysODE": ["dyn_loss", "observations", "initial_condition"],
+            "DerivativeKeysPDEStatio": ["dyn_loss", "observations", "boundary_loss", "norm_loss"],
+            "DerivativeKeysPDENonStatio": ["dyn_loss", "observations", "boundary_loss", "norm_loss", "initial_condition"]}
+    for cls, fields in want.items():
+        f = find_func(mod, "from_str", cls)
+        r = one(returns(f), f"return of {cls}.from_str")
+        if not (isinstance(r, ast.Call) and ast.unparse(r.func) == cls and not r.args):
+            ok = False; continue
+        kws = {k.arg: ast.unparse(k.value) for k in r.keywords}
+        if sorted(kws) != sorted(fields):
+            ok = False
+        for k, v in kws.items():
+            if v != f"_get_masked_parameters({k}, params) if isinstance({k}, str) else {k}":
+                ok = False
+    return f"Definition gen_from_str_field_by_field : bool := {'true' if ok else 'false'}."
+
+
 @anchor("G_derivkeys", "system_term_masks")
 def _(repo):
     """system losses: the constraint loss of unknown i is built from entry i of every per-unknown
